@@ -117,6 +117,15 @@ CLAIMED.update({
             "The concrete texts are the harness's; ambiguous spellings (single digit, literal white space, thousands separator "
             "'space') are not tried; encodings are probed with a handful of names.",
             "DESIGN.md section 5, C11"),
+    "C09": ("TLA+ spec CidLoad.tla (row dispatch of Cid.read as a machine over abstract rows vs. Sound / FirstOffending stated from "
+            "the property): TLC exhaustive over base CIDs x exactly one defect of the catalogue at every applicable row x row-level "
+            "rewrites; every behaviour replayed through Cid.read and create_cid_from_string with the concrete catalogue cells",
+            "TLC checks AcceptedIffSound, RejectionNamesTheRow and KeepsOrder; replay compares acceptance, the row named by the "
+            "InterfaceError (location or text), field names and classes in order, check names and the format, in plain form, with "
+            "lower-case blank-padded markers, with trailing cells and from CSV text.",
+            "One concrete cell per catalogue entry (32 cell-level + 12 structural defects); base CIDs of 1-3 fields (thorough 1-6) "
+            "and 0-2 checks (thorough 0-3); end-of-CID defects: no row asserted.",
+            "DESIGN.md section 5, C09"),
 })
 
 NOT_BUILT = "check not built yet in this round (planned: see DESIGN.md section 5)"
